@@ -182,6 +182,13 @@ def svd_cases(draw, tier):
 
 
 @st.composite
+def davidson_cases(draw, tier):
+    return {"kind": "davidson", "n": draw(st.integers(2, 40 if tier == "quick" else 120)), "rng": draw(st.integers(0, 2 ** 31 - 1)),
+            "cplx": draw(st.booleans()), "offdiag": draw(st.sampled_from([0.0, 0.0, 1e-6, 0.05, 0.5])),
+            "diag": draw(st.sampled_from(["generic", "positive", "degenerate"])), "scale_exp": draw(st.sampled_from([0, 0, -3, 3]))}
+
+
+@st.composite
 def eigh_cases(draw, tier):
     spec = {
         "kind": "eigh",
@@ -352,7 +359,7 @@ class C18(Prop):
         return st.one_of(
             krylov_cases(tier), krylov_cases(tier), krylov_cases(tier),
             svd_cases(tier), svd_cases(tier), svd_cases(tier), svd_cases(tier),
-            eigh_cases(tier), select_cases(tier), util_cases(tier),
+            eigh_cases(tier), select_cases(tier), util_cases(tier), davidson_cases(tier),
         )
 
     def finite_cases(self, tier):
@@ -387,7 +394,54 @@ class C18(Prop):
             return self.run_select(spec)
         if kind == "util":
             return self.run_util(spec)
+        if kind == "davidson":
+            return self.run_davidson(spec)
         raise ValueError(kind)
+
+    # ---- (e) Davidson eigensolver as the optimisers call it -------------------------------------------------------------
+    def run_davidson(self, spec):
+        """lowest eigenpair of a generated Hermitian matrix with the optimisers' call (diagonal preconditioner
+        x/(hdiag - e + 1e-4), max_cycle 100): the Ritz value is variational and converged, the vector normalised, the residual small"""
+        from renormalizer.lib import davidson
+
+        r = Result()
+        n = spec["n"]
+        rng = np.random.default_rng(spec["rng"])
+        hd = rng.uniform(-1.0, 1.0, n) if spec["diag"] != "positive" else rng.uniform(0.1, 1.0, n)
+        if spec["diag"] == "degenerate":
+            hd[: max(2, n // 3)] = hd[0]
+        A = np.diag(hd).astype(complex if spec["cplx"] else float)
+        if spec["offdiag"] > 0:
+            B = rng.standard_normal((n, n)) + (1j * rng.standard_normal((n, n)) if spec["cplx"] else 0)
+            A = A + spec["offdiag"] * (B + B.conj().T) / 2
+        A = A * 10.0 ** spec["scale_exp"]
+        hdiag = np.real(np.diag(A)).copy()
+        w = np.linalg.eigvalsh(A)
+        g = rng.standard_normal(n) + (1j * rng.standard_normal(n) if spec["cplx"] else 0)
+        g = g / np.linalg.norm(g)
+        sc = max(float(np.max(np.abs(w))), 1e-300)
+        r.classes += ["davidson", f"davidson.offdiag={spec['offdiag']}", f"davidson.{spec['diag']}", f"davidson.n<={(n + 9) // 10 * 10}"]
+        r.nontrivial = n >= 4
+        try:
+            e, c = davidson(lambda x: A @ x, g, lambda x, e_, *a: x / (hdiag - e_ + 1e-4 * 10.0 ** spec["scale_exp"]),
+                            max_cycle=100, nroots=1, max_memory=64000, verbose=0)
+        except Exception as ex:  # noqa
+            sig, in_lib = lib_exception_sig(ex)
+            if not in_lib:
+                raise
+            r.fail(f"davidson.{sig}", f"{ex!r} n={n} offdiag={spec['offdiag']} diag={spec['diag']}")
+            return r
+        c = np.asarray(c)
+        e = float(np.real(e))
+        r.resid("davidson.below_lowest_eigenvalue", (w[0] - e) / sc, 1e-9)
+        r.check("davidson.variational", e >= w[0] - 1e-9 * sc, f"Ritz value {e!r} below the lowest eigenvalue {w[0]!r} (n={n}, offdiag={spec['offdiag']}, {spec['diag']})")
+        r.check_close("davidson.unit_vector", np.linalg.norm(c), 1.0, 1e-8, f"norm of the returned vector (n={n})")
+        rq = float(np.real(c.conj() @ (A @ c)) / max(np.linalg.norm(c) ** 2, 1e-300))
+        r.check_close("davidson.rayleigh", rq, e, 1e-7 * sc, "Rayleigh quotient of the returned vector vs returned eigenvalue")
+        # convergence to the LOWEST eigenvalue is not part of the routine's contract (it returns the current Ritz pair when the
+        # trial space becomes linearly dependent or the cycles are used up): a statistic, not an assertion
+        r.classes.append("davidson.reached_lowest" if e <= w[0] + 1e-6 * sc else "davidson.stopped_above_lowest")
+        return r
 
     # ---- (a) Krylov ----------------------------------------------------------------------------------
     @staticmethod
